@@ -257,6 +257,70 @@ pub fn run_table<W: Write>(lines: &[String], oracle: bool, out: &mut W) {
     writeln!(out, "end").unwrap();
 }
 
+// ------------------------------------------------------------------------------------------------ Table<Node>
+pub fn run_ntable<W: Write>(lines: &[String], oracle: bool, out: &mut W) {
+    use bdd_rs::node::Node;
+    let hdr: Vec<&str> = lines.iter().map(|l| l.split_whitespace().collect::<Vec<_>>()).find(|t| !t.is_empty() && t[0] == "ntable").unwrap();
+    let bits: usize = hdr[1].parse().unwrap();
+    let bb: usize = hdr[2].parse().unwrap();
+    let mut t: Table<Node> = Table::with_buckets(bits, bb);
+    let mut refmap: HashMap<(u32, u32, u32), usize> = HashMap::new();
+    for (ln, line) in lines.iter().enumerate() {
+        let tk: Vec<&str> = line.split_whitespace().collect();
+        if tk.is_empty() || tk[0].starts_with('#') || tk[0] == "ntable" {
+            continue;
+        }
+        match tk[0] {
+            "putn" => {
+                let v: u32 = tk[1].parse().unwrap();
+                let lo: u32 = tk[2].parse().unwrap();
+                let hi: u32 = tk[3].parse().unwrap();
+                let nd = Node { variable: v, low: raw_ref(lo), high: raw_ref(hi) };
+                let r = catch_unwind(AssertUnwindSafe(|| t.put(nd)));
+                match r {
+                    Ok(i) => {
+                        writeln!(out, "i {} {} {} {}", i, t.real_size(), t.size(), t.min_free()).unwrap();
+                        if oracle {
+                            let key = (v, lo, hi);
+                            let clash = refmap.iter().find(|(k, &j)| j == i && **k != key).map(|(k, _)| *k);
+                            if let Some(k) = clash {
+                                for tag in ["C17", "C01"] {
+                                    writeln!(out, "ORACLE {} line={} two different nodes (x{}, {}, {}) and (x{}, {}, {}) received the same index {}", tag, ln + 1, k.0, k.1, k.2, v, lo, hi, i).unwrap();
+                                }
+                            }
+                            match refmap.get(&key) {
+                                Some(&j) if j != i => {
+                                    for tag in ["C17", "C01"] {
+                                        writeln!(out, "ORACLE {} line={} node (x{}, {}, {}) lives at {} but put returned {}", tag, ln + 1, v, lo, hi, j, i).unwrap();
+                                    }
+                                }
+                                Some(_) => {}
+                                None => {
+                                    refmap.insert(key, i);
+                                }
+                            }
+                            if i == 0 {
+                                writeln!(out, "ORACLE C17 line={} put returned index 0", ln + 1).unwrap();
+                            }
+                        }
+                    }
+                    Err(e) => {
+                        let m = panic_msg(e);
+                        if m.contains("Storage is full") {
+                            writeln!(out, "panic full").unwrap();
+                        } else {
+                            writeln!(out, "panic other {}", m).unwrap();
+                        }
+                        break;
+                    }
+                }
+            }
+            other => panic!("bad ntable line {}", other),
+        }
+    }
+    writeln!(out, "end").unwrap();
+}
+
 // ------------------------------------------------------------------------------------------------ Cache
 #[derive(Clone, Copy, PartialEq, Eq, Debug)]
 struct NKey(u64);
@@ -348,7 +412,15 @@ pub fn run_cache<W: Write>(lines: &[String], oracle: bool, out: &mut W) {
                     if let Some(v) = &got {
                         match latest.get(&ks) {
                             Some(l) if l == v => {}
-                            other => writeln!(out, "ORACLE C18 line={} get {} returned {}, the value most recently inserted under that key since the last clear is {:?}", ln + 1, ks, v, other).unwrap(),
+                            other => {
+                                writeln!(out, "ORACLE C18 line={} get {} returned {}, the value most recently inserted under that key since the last clear is {:?}", ln + 1, ks, v, other).unwrap();
+                                if keyed {
+                                    // the manager's own operation cache type: a wrong hit here is a wrong apply_ite / constrain / restrict result
+                                    for tag in ["C02", "C07"] {
+                                        writeln!(out, "ORACLE {} line={} Cache<OpKey, Ref>: get {} returned {}, the value most recently inserted under that key since the last clear is {:?}", tag, ln + 1, ks, v, other).unwrap();
+                                    }
+                                }
+                            }
                         }
                     }
                     if h + m != ngets {
